@@ -8,12 +8,13 @@ import json, os, random, shutil, subprocess, tempfile
 from concurrent.futures import ThreadPoolExecutor
 from multiprocessing import Pool
 from . import common as C
-from . import asa, ios, linux, panos, nsx
+from . import asa, ios, linux, panos, nsx, asav
 
 DEV = os.path.join(C.SPECS, "dev")
 
 DIALECTS = {
     "asa": dict(mod=asa, model="ASA", gen="AsaGen", trace="AsaTrace"),
+    "asav": dict(mod=asav, model="ASA", gen="AsaVGen", trace="AsaVTrace", maps=("objs",)),
     "nsx": dict(mod=nsx, model="NSX", gen="NsxGen", trace="NsxTrace", maps=("policies", "groups", "services")),
     "panos": dict(mod=panos, model="PAN-OS", gen="PanosGen", trace="PanosTrace",
                   maps=("addrs", "groups", "svcs", "sgroups")),
@@ -49,6 +50,8 @@ def gen_cases(dialect, fam, consts=None, limit=None, rng=None, timeout=1800):
     cs = {"Fam": '"%s"' % fam}
     cs.update(consts or {})
     cdir = os.path.join(C.VERIF, "cache")
+    if fam.endswith("L"):
+        cs["Seed"] = str(C.seed())
     cfile = os.path.join(cdir, "%s-%s-%s.json.gz" % (D["gen"], fam, _gen_key(D, cs)))
     cases = None
     if os.path.exists(cfile):
@@ -58,7 +61,9 @@ def gen_cases(dialect, fam, consts=None, limit=None, rng=None, timeout=1800):
         except Exception:
             cases = None
     if cases is None:
-        res = C.run_tlc(DEV, D["gen"], D["gen"] + ".cfg", consts=cs, timeout=timeout, heap="8g")
+        # random families (Randomization!RandomSubset) are drawn with tlc -seed = Seed constant of the cache key
+        tseed = int(cs.pop("Seed")) if "Seed" in cs else None
+        res = C.run_tlc(DEV, D["gen"], D["gen"] + ".cfg", consts=cs, timeout=timeout, heap="8g", tlc_seed=tseed)
         if res.error or res.rc != 0:
             raise C.Broken("%s %s failed: %s" % (D["gen"], fam, res.error or res.out[-2000:]))
         cases = [json.loads(p[0]) for p in res.prints]
